@@ -24,6 +24,12 @@ func Explore(ctx *vrun.Ctx, u *Universe, coverage, withMining bool) (*Model, *tl
 	if err != nil {
 		return nil, nil, err
 	}
+	for i := range c.SigCost {
+		if c.SigCost[i] != c.SigCostReal[i] {
+			ctx.Violation("sigop-cost-of-transaction", fmt.Sprintf("universe %s: blockchain.GetSigOpCost reports %d for transaction %d, counting its scripts gives %d", u.Name, c.SigCostReal[i], i+1, c.SigCost[i]),
+				map[string]any{"universe": u, "transaction": i + 1})
+		}
+	}
 	mod := "U_" + u.Name
 	base, defs, cfgTail := "Mempool", "", mempoolCfgTail
 	var setup *MiningSetup
@@ -91,9 +97,9 @@ func universesFor(ctx *vrun.Ctx, mining bool) []*Universe {
 	if !mining {
 		us = append(us, EvictionBoundary()) // slowest TLC run first
 	}
-	want := map[string]bool{"rbf": true, "orphans": true, "reorg": true, "reorgsmall": true, "locktime": true, "locknonstd": true}
+	want := map[string]bool{"rbf": true, "orphans": true, "reorg": true, "reorgsmall": true, "locktime": true, "locknonstd": true, "rbfwit": true}
 	if mining {
-		want = map[string]bool{"reorg": true, "mining": true, "sigops": true, "retarget": true, "locknonstd": true}
+		want = map[string]bool{"reorg": true, "mining": true, "sigops": true, "retarget": true, "locknonstd": true, "halving": true}
 	}
 	for _, u := range BuiltinUniverses() {
 		if ctx.Thorough || want[u.Name] {
